@@ -33,6 +33,7 @@ import (
 	compact_float "github.com/kstenerud/go-compact-float"
 	compact_time "github.com/kstenerud/go-compact-time"
 	"github.com/kstenerud/go-concise-encoding/ce/events"
+	"github.com/kstenerud/go-concise-encoding/conversions"
 	"github.com/kstenerud/go-describe"
 )
 
@@ -116,7 +117,13 @@ func PanicCannotConvertRV(value reflect.Value, dstType reflect.Type) {
 // Report that an error occurred while converting between types.
 // This normally indicates a bug.
 func PanicErrorConverting(value interface{}, dstType reflect.Type, err error) {
-	panic(fmt.Errorf("error converting %v (type %v) to type %v: %v", describe.D(value), reflect.TypeOf(value), dstType, err))
+	var described interface{}
+	if bf, ok := value.(*big.Float); ok && bf != nil {
+		described = conversions.BigFloatToErrorText(bf)
+	} else {
+		described = describe.D(value)
+	}
+	panic(fmt.Errorf("error converting %v (type %v) to type %v: %v", described, reflect.TypeOf(value), dstType, err))
 }
 
 // Report that an error occurred while building from custom binary data.
